@@ -1,8 +1,11 @@
 package sym
 
 import (
+	"crypto/x509"
+	"encoding/asn1"
 	"fmt"
 	"go/types"
+	"math/big"
 )
 
 // ---------------------------------------------------------------------------
@@ -71,6 +74,12 @@ func (x *Exec) pubKeyType(kind int) types.Type {
 func (x *Exec) parseCertificate(der *Term) (*certInfo, bool) {
 	key := der.Key()
 	ci, ok := x.certs[key]
+	if !ok && der.IsConst() {
+		// concrete bytes: the real parser decides
+		if _, err := x509.ParseCertificate([]byte(der.S)); err != nil {
+			return &certInfo{der: der, ok: FalseT}, false
+		}
+	}
 	if !ok {
 		ci = &certInfo{der: der}
 		name := x.certSymbol(der)
@@ -245,7 +254,7 @@ func registerCryptoModels(e *Engine) {
 		x.setField(&Pointer{Cell: xc}, xd, "X509Certificate", UF("b64", s.ci.der))
 		set([]string{"KeyInfo", "X509Data"}, &Pointer{Cell: xc})
 		x.signed = append(x.signed, &signedTriple{kind: "enveloped", by: "idp", keyID: s.ci.keyID, octets: tok, alg: s.sigAlg, sig: sigVal,
-			snap: x.snapKey(x.xmlTokens[tok.S].Obj, 0), typ: iv.T.String(), dig: s.digAlg, cert: UF("b64", s.ci.der), uri: Ite(Eq(id, StrC("")), StrC(""), Concat(StrC("#"), id))})
+			snap: x.snapKey(val, 0), typ: iv.T.String(), dig: s.digAlg, cert: UF("b64", s.ci.der), uri: Ite(Eq(id, StrC("")), StrC(""), Concat(StrC("#"), id))})
 		return TupleV{p, NilIface}
 	}
 
@@ -373,7 +382,22 @@ func registerCryptoModels(e *Engine) {
 	}
 	m["encoding/asn1.Unmarshal"] = func(x *Exec, fr *frame, a []Value) Value {
 		// DSA signature container: the parse fails, or yields arbitrary integers
-		d := bytesTerm(x, a[0])
+		d := x.shape(bytesTerm(x, a[0]))
+		if d.IsConst() {
+			// concrete bytes: the real parser decides
+			var sig struct{ R, S *big.Int }
+			rest, err := asn1.Unmarshal([]byte(d.S), &sig)
+			if err != nil {
+				return TupleV{&BytesV{T: StrC(""), Nil: true}, x.errorC("asn1: " + err.Error())}
+			}
+			if iv, _ := x.force(a[1]).(*IfaceV); iv != nil && iv.T != nil {
+				if p, ok := x.force(iv.V).(*Pointer); ok && !p.IsNil() {
+					x.store(p, &StructV{F: []Value{&Native{Kind: "bigint", Data: IntC(int64(sig.R.Sign()))}, &Native{Kind: "bigint", Data: IntC(int64(sig.S.Sign()))}}})
+				}
+			}
+			return TupleV{&BytesV{T: StrC(string(rest))}, NilIface}
+		}
+		x.unreplayable = append(x.unreplayable, "ASN.1 structure of bytes the harness did not build")
 		if !x.Branch(UFSort("asn1.ok", SBool, d)) {
 			return TupleV{&BytesV{T: StrC(""), Nil: true}, x.libError("asn1")}
 		}
